@@ -33,6 +33,20 @@ Inductive kobs := KNone | KRaw (b : bytes) | KSum (head : bytes) (n ck : N).
     [HFlush]: GET /flush on the plugin's API. *)
 Inductive hop := HQ (q : qd) (kind : N) (replace : bool) | HFlush.
 
+(** Steps of a redirect + lazy cache run.
+    [LAsk n]: a query for name n through the whole chain, then every lazy update
+    in flight is joined. [LAge n]: the entry under key(n) is made 400 s older
+    (the answers' TTL is 300 s, the lazy TTL a day). *)
+Inductive lop := LAsk (n : N) | LAge (n : N).
+
+(** [OAsk qn owners ip sync bg]: the reply's question name, the owner names of its
+    answer records, the name the address in it belongs to, whether the upstream
+    was asked synchronously (a miss), and the name the upstream was asked for by a
+    background (lazy) update, if one ran. [OAge present]: the entry existed. *)
+Inductive lobs :=
+| OAsk (qn : N) (owners : list N) (ip : N) (sync : bool) (bg : option N)
+| OAge (present : bool).
+
 Inductive case :=
   (** VerifGetMsgKey on two messages; [eq]: the two Go strings are equal *)
 | CKeys (q1 q2 : qd) (k1 k2 : kobs) (eq : bool)
@@ -48,7 +62,14 @@ Inductive case :=
   (** implementation-side sweep of one component over [total] values around
       [base]: number of distinct keys, and the checksum over the concatenated
       keys of the [cnt] values [start, start+step, ...] *)
-| CSweep (dim : N) (base : qd) (total distinct : N) (start step cnt ck : N).
+| CSweep (dim : N) (base : qd) (total distinct : N) (start step cnt ck : N)
+  (** the chain [redirect rules; cache; upstream] on one Cache with
+      lazy_cache_ttl > 0 ([lazy]) or 0: names are the ids 0..9 (the name "n<i>."),
+      [rules] the redirect rules (alias, target), every question is (name, A, IN).
+      Per step what was observed, and at the end what the store holds under the
+      key of each name 0..m-1 (question name, owner names of the answer records). *)
+| CLazy (lazy : bool) (rules : list (N * N)) (ops : list lop) (obs : list lobs)
+        (held : list (option (N * list N))).
 
 (** * Model side *)
 
@@ -111,6 +132,79 @@ Fixpoint sweep_keys (fuel : nat) (dim : N) (base : qd) (i step : N) : bytes :=
   | S f => get_msg_key (qd_msg (sweep_q dim base i)) ++ sweep_keys f dim base (i + step) step
   end.
 
+(** ** redirect in front of a (lazy) cache, on the model's [step] *)
+
+Definition lname (i : N) : bytes := [110; 48 + i; 46].            (* "n<i>." *)
+Definition lid (b : bytes) : N := match b with [110; d; 46] => d - 48 | _ => 99 end.
+Definition lq (i : N) : qmsg := mkq false 0 false false [mkqu (lname i) 1 1] [XOpt 0].
+(** the upstream's answer when asked for name i: question i, records of i *)
+Definition lresp (i : N) : option resp := Some (mkr [mkqu (lname i) 1 1] true i).
+Definition lkey (i : N) : bytes := get_msg_key (lq i).
+
+(** redirect: the first rule for the name, no chaining *)
+Fixpoint ltarget (rules : list (N * N)) (n : N) : N :=
+  match rules with
+  | [] => n
+  | (a, t) :: r => if a =? n then t else ltarget r n
+  end.
+
+Definition resp_name (v : resp) : N :=
+  match r_question v with [qu] => lid (qname qu) | _ => 99 end.
+
+(** What the cache does, in terms of the model's steps: a fresh or absent entry
+    is one execution; an entry whose message has expired is, with lazy cache, a
+    hit followed by the background update — an execution of the SAME query (the
+    context is copied when the update is started) that stores what the upstream
+    says — and without lazy cache a removal followed by a miss. *)
+Fixpoint lazy_run (lazy : bool) (rules : list (N * N)) (st : store) (stale : list N)
+         (ops : list lop) : list lobs * store :=
+  match ops with
+  | [] => ([], st)
+  | LAge n :: t =>
+    let present := match lookup (lkey n) st with Some _ => true | None => false end in
+    let '(o, st') := lazy_run lazy rules st (if present then n :: stale else stale) t in
+    (OAge present :: o, st')
+  | LAsk n :: t =>
+    let k := ltarget rules n in
+    let is_stale := existsb (N.eqb k) stale in
+    let st0 := if is_stale && negb lazy then fst (step st (Drop (lkey k))) else st in
+    let '(st1, out) := step st0 (Query (lq k) (lresp k) None) in
+    let st2 := if is_stale && lazy then fst (step st1 (Query (lq k) (lresp k) (lresp k))) else st1 in
+    let served := match out with Hit v => Some v | _ => lresp k end in
+    let ob := match served with
+              | Some v =>
+                let vn := resp_name v in
+                OAsk (if vn =? k then n else vn)
+                     ((if k =? n then [] else [n]) ++ [r_id v]) (r_id v)
+                     (match out with Hit _ => false | _ => true end)
+                     (if is_stale && lazy then Some k else None)
+              | None => OAge false
+              end in
+    let '(o, st') := lazy_run lazy rules st2 (filter (fun x => negb (x =? k)) stale) t in
+    (ob :: o, st')
+  end.
+
+Fixpoint held_from (st : store) (i : N) (m : nat) : list (option (N * list N)) :=
+  match m with
+  | O => []
+  | S m' =>
+    match lookup (lkey i) st with
+    | Some v => Some (resp_name v, [r_id v])
+    | None => None
+    end :: held_from st (i + 1) m'
+  end.
+
+Definition lobs_eqb (a b : lobs) : bool :=
+  match a, b with
+  | OAsk q1 o1 i1 s1 b1, OAsk q2 o2 i2 s2 b2 =>
+    (q1 =? q2) && list_eqb N.eqb o1 o2 && (i1 =? i2) && Bool.eqb s1 s2 && optN_eqb b1 b2
+  | OAge p1, OAge p2 => Bool.eqb p1 p2
+  | _, _ => false
+  end.
+
+Definition held_eqb (a b : option (N * list N)) : bool :=
+  option_eqb (fun x y => (fst x =? fst y) && list_eqb N.eqb (snd x) (snd y)) a b.
+
 Definition agree (c : case) : bool :=
   match c with
   | CKeys d1 d2 k1 k2 eq =>
@@ -138,6 +232,9 @@ Definition agree (c : case) : bool :=
     (* pairwise different queries have pairwise different keys (key_injective) *)
     (distinct =? total)
     && (checksum (sweep_keys (N.to_nat cnt) dim base start step) =? ck)
+  | CLazy lazy rules ops obs held =>
+    let '(o, st) := lazy_run lazy rules [] [] ops in
+    list_eqb lobs_eqb o obs && list_eqb held_eqb (held_from st 0 (length held)) held
   end.
 
 (** * The property's own oracle, written without the key *)
@@ -182,6 +279,31 @@ Fixpoint hist_sound (ops : list hop) (i : nat) (rest : list hop) (obs : list (op
   | _, _ => false
   end.
 
+(** Redirect + lazy cache, stated on names only: a reply to a query for n carries
+    the question n, its records end at the name the rules send n to and carry
+    that name's address; whatever the store holds under the key of name i is an
+    answer to the question i with records of i. *)
+Definition rule_target (rules : list (N * N)) (n : N) : N :=
+  match find (fun p => fst p =? n) rules with Some p => snd p | None => n end.
+
+Fixpoint lazy_sound (rules : list (N * N)) (ops : list lop) (obs : list lobs) : bool :=
+  match ops, obs with
+  | [], [] => true
+  | LAsk n :: ops', OAsk qn owners ip _ _ :: obs' =>
+    (qn =? n) && (hd 99 owners =? n) && (last owners 99 =? rule_target rules n)
+    && (ip =? rule_target rules n) && lazy_sound rules ops' obs'
+  | LAge _ :: ops', OAge _ :: obs' => lazy_sound rules ops' obs'
+  | _, _ => false
+  end.
+
+Fixpoint held_sound (i : N) (held : list (option (N * list N))) : bool :=
+  match held with
+  | [] => true
+  | None :: t => held_sound (i + 1) t
+  | Some (qn, owners) :: t =>
+    (qn =? i) && forallb (N.eqb i) owners && held_sound (i + 1) t
+  end.
+
 Definition spec (c : case) : bool :=
   match c with
   | CKeys d1 d2 k1 k2 eq =>
@@ -195,6 +317,7 @@ Definition spec (c : case) : bool :=
   | CHist ops obs => hist_sound ops 0 ops obs
   | CCtx d seen k => Bool.eqb (is_knone k) (negb (cacheable (qd_msg d)))
   | CSweep dim base total distinct start step cnt ck => distinct =? total
+  | CLazy lazy rules ops obs held => lazy_sound rules ops obs && held_sound 0 held
   end.
 
 (** * Non-triviality *)
@@ -230,4 +353,9 @@ Definition nontrivial (c : case) : bool :=
   | CCtx d _ _ => existsb (fun x => match x with XOpt t => N.testbit t 15 | XOther => false end)
                           (q_extra (qd_msg d))
   | CSweep _ _ _ _ _ _ _ _ => true
+  | CLazy lazy rules ops obs _ =>
+    (* a background update happened for a redirected query, and something was asked after it *)
+    lazy && negb (match rules with [] => true | _ => false end)
+    && existsb (fun o => match o with OAsk _ (_ :: _ :: _) _ _ (Some _) => true | _ => false end)
+               (removelast obs)
   end.
